@@ -1,5 +1,5 @@
 CONSTANTS
-  DirLen = 7
+  DirLen = 6
   MaxLen = 6
 INIT Init
 NEXT Next
